@@ -1123,6 +1123,14 @@ mzd_t *mzd_transpose(mzd_t *DST, mzd_t const *A) {
   if (A->nrows == 0 || A->ncols == 0)
     return mzd_copy(DST, A);
 
+  if (__M4RI_UNLIKELY(mzd_is_dangerous_window(A))) {
+    /* the kernels read whole words of the source: transpose a copy whose excess bits are zero */
+    mzd_t *S = mzd_copy(NULL, A);
+    mzd_transpose(DST, S);
+    mzd_free(S);
+    return DST;
+  }
+
   rci_t maxsize = MAX(A->nrows, A->ncols);
   if (__M4RI_LIKELY(!mzd_is_dangerous_window(DST))) {
     _mzd_transpose(DST->data, A->data, DST->rowstride, A->rowstride, A->nrows, A->ncols, maxsize);
